@@ -27,7 +27,7 @@ SPEC = {
             "requests with an odd number of inverse() calls) - each through inverse, apply_vec_into, apply_inverse_vec_into, apply_vec_in_place, "
             "matrix.dot, the strided/reversed/column views and the derived objects (pairwise distinct non-zero payload, so an unwritten or "
             "doubly written element shows), and a sample of them through matrix/transform in all layouts. "
-            "FAULT INJECTION: for 60 (thorough: 600) permutations (rotations, reversals, partial and full shuffles, n = 1..40) mis-sized calls - "
+            "FAULT INJECTION: for 60 (thorough: 300) permutations (rotations, reversals, partial and full shuffles, n = 1..40) mis-sized calls - "
             "apply_vec_in_place on vectors of length 0, 1, n/2, n-2, n-1, n+1, n+3, 2n+1, and a sample of apply_vec_into / apply_inverse_vec_into "
             "with mis-sized source and/or destination and transform on mis-shaped matrices - under catch_unwind on a fresh thread; the outcome "
             "(panic, or the buffer afterwards) is predicted by the model (A) and skipped by (B) (outside the quantifier); then, for each such call, "
